@@ -34,7 +34,7 @@ Proof. exact oversized_response_refused. Qed.
    Aborted; nothing after it is accepted *)
 Theorem C14_accept_loop : forall pre e post,
   forallb (fun x => negb (stops x)) pre = true -> stops e = true ->
-  serve (pre ++ e :: post) = (flat_map script_of pre, result_of e).
+  serve (pre ++ e :: post) = (flat_map script_of pre, result_of e post).
 Proof. exact serve_split. Qed.
 Theorem C14_accept_loop_keeps_listening : forall evs,
   forallb (fun x => negb (stops x)) evs = true -> serve evs = (flat_map script_of evs, SrvListening).
@@ -42,3 +42,10 @@ Proof. exact serve_keeps_listening. Qed.
 (* error reports of the connections add up: a misbehaving connection does not affect the others *)
 Theorem C14_reports_are_per_connection : forall p m a b, serve_reports p m (a ++ b) = serve_reports p m a + serve_reports p m b.
 Proof. exact serve_reports_app. Qed.
+
+(* the abort signal is honoured even while the accept loop is suspended inside a connection setup (on_connected) that
+   never completes: serve_until reports Aborted, with the connections accepted before still handed to their tasks *)
+Theorem C14_abort_during_hanging_setup : forall pre post1 post2,
+  forallb (fun x => negb (stops x)) pre = true ->
+  serve (pre ++ AConn SetupHang :: post1 ++ AAbort :: post2) = (flat_map script_of pre, SrvAborted).
+Proof. exact abort_during_hanging_setup. Qed.
